@@ -143,7 +143,6 @@ func nonLoopGuards(ls []Lit) []Lit {
 // inner loop. Returns the kinds of the predicates in list order.
 func (c *Ctx) resolveOrderTable(find *ssa.Function, blk *ssa.BasicBlock) ([]string, bool) {
 	P := c.P
-	short0 := P.Desc(find.Params[1])
 	// (A) `if matches(candidate, shortName) { return candidate }` with matches ranging over the predicate list
 	// (outer loop) and candidate over the entries (inner loop)
 	var dyn *ssa.Call
@@ -187,6 +186,15 @@ func (c *Ctx) resolveOrderTable(find *ssa.Function, blk *ssa.BasicBlock) ([]stri
 	default:
 		return nil, false
 	}
+	return c.resolveOrderTableFrom(find, blk, listElem, inLoop, dyn != nil && viaHelper == nil, dyn)
+}
+
+// resolveOrderTableFrom: listElem - the predicate tried in one round - is the element of a loop over a whole list
+// of function literals; inLoop is the block in which the entries are searched with it, blk the block that returns
+// the match. Gives the kinds of the listed predicates in list order.
+func (c *Ctx) resolveOrderTableFrom(find *ssa.Function, blk *ssa.BasicBlock, listElem ssa.Value, inLoop *ssa.BasicBlock, nested bool, dyn *ssa.Call) ([]string, bool) {
+	P := c.P
+	short0 := P.Desc(find.Params[1])
 	// the predicate: element of a loop over the whole list, in index order
 	var listIdx, listBase ssa.Value
 	switch le := listElem.(type) {
@@ -213,7 +221,7 @@ func (c *Ctx) resolveOrderTable(find *ssa.Function, blk *ssa.BasicBlock) ([]stri
 	if outer == nil || !outer[inLoop] {
 		return nil, false
 	}
-	if dyn != nil && viaHelper == nil {
+	if nested && dyn != nil {
 		// the candidate loop is nested inside the predicate loop (priority first, then entries)
 		inner := loopOf(dyn.Block())
 		if inner == nil || len(inner) >= len(outer) {
@@ -262,6 +270,10 @@ func (c *Ctx) resolveOrderTable(find *ssa.Function, blk *ssa.BasicBlock) ([]stri
 				if sl, ok := st.Val.(*ssa.Slice); ok {
 					arr, _ = sl.X.(*ssa.Alloc)
 				}
+				// an array variable: initialised with the value of the literal's temporary
+				if ld, ok := st.Val.(*ssa.UnOp); ok && ld.Op == token.MUL {
+					arr, _ = ld.X.(*ssa.Alloc)
+				}
 			}
 		})
 		// no other store to the variable
@@ -305,7 +317,11 @@ func (c *Ctx) resolveOrderTable(find *ssa.Function, blk *ssa.BasicBlock) ([]stri
 		}
 		for _, s2 := range *ia2.Referrers() {
 			if st2, ok := s2.(*ssa.Store); ok && st2.Addr == ia2 {
-				f := P.closureValue(st2.Val, 0)
+				fv := st2.Val
+				if ct, isCT := fv.(*ssa.ChangeType); isCT {
+					fv = ct.X // a named function type
+				}
+				f := P.closureValue(fv, 0)
 				if f == nil {
 					return nil, false
 				}
@@ -319,10 +335,28 @@ func (c *Ctx) resolveOrderTable(find *ssa.Function, blk *ssa.BasicBlock) ([]stri
 	sort.Slice(ents, func(i, j int) bool { return ents[i].idx < ents[j].idx })
 	var kinds []string
 	for _, e := range ents {
+		kinds = append(kinds, c.classifyImportPred(e.fn, short0))
+	}
+	return kinds, true
+}
+
+// classifyImportPred: which priority a predicate on an import entry stands for - judged on the conditions of its
+// `true` answers: equality of the short name with Alias / PackageName / FullPath, the path-suffix helper; "name-own"
+// when it also demands an empty alias. A branch on a bool that is a constant in the calling context (a parameter
+// like withoutAliasOnly) is taken as that constant.
+func (c *Ctx) classifyImportPred(pf *ssa.Function, short0 string) string {
+	P := c.P
+	{
+		e := struct{ fn *ssa.Function }{pf}
 		kind := "?"
 		names := []string{short0}
-		if len(e.fn.Params) == 2 {
-			names = append(names, P.Desc(e.fn.Params[1]))
+		for _, prm := range e.fn.Params {
+			if b, isB := prm.Type().Underlying().(*types.Basic); isB && b.Kind() == types.String {
+				names = append(names, P.Desc(prm))
+			}
+		}
+		for _, fv := range e.fn.FreeVars {
+			names = append(names, P.Desc(fv))
 		}
 		isName := func(d string) bool {
 			for _, n := range names {
@@ -337,7 +371,11 @@ func (c *Ctx) resolveOrderTable(find *ssa.Function, blk *ssa.BasicBlock) ([]stri
 			if !ok || len(r.Results) != 1 {
 				return
 			}
+			if isF, isC := constBool(r.Results[0]); isC && !isF {
+				return // a `no`
+			}
 			lits := append(append([]Lit{}, P.BlockGuards(b)...), literals(P.condFormula(r.Results[0], 0), true)...)
+			lits = c.constFolded(lits)
 			for _, l := range lits {
 				if l.Kind == "eq" && l.Pos {
 					other := ""
@@ -364,9 +402,8 @@ func (c *Ctx) resolveOrderTable(find *ssa.Function, blk *ssa.BasicBlock) ([]stri
 			}
 			kind = c.nameOwn(kind, lits)
 		})
-		kinds = append(kinds, kind)
+		return kind
 	}
-	return kinds, true
 }
 
 // firstMatchHelper: h(entries, accept) returns the first entry (in index order, over the whole list) that accept
@@ -536,59 +573,69 @@ func (c *Ctx) ruleImportResolution() {
 		c.check(!c.pathFallbackOpen, "RESOLVE-ORDER/PATH-FALLBACK", "util.ImportMap.Find#path-fallback", P.Pos(find.Pos()), "path-based matches only for imports whose declared package name is unknown",
 			"an import whose declared package name is known is also matched by its import path / last path element: `@implements dirname.I` is accepted for a package that declares another name than its directory (missed IMPL01)")
 	}()
+	decided := false
 	// table-driven form: one return under `matches(candidate, shortName)` with matches ranging over a package-level
 	// list of predicates (outer loop) and candidate over the entries (inner loop): the order is the order of the list
 	if len(rets) == 1 && rets[0].kind == "?" {
 		if kinds, ok := c.resolveOrderTable(find, rets[0].blk); ok {
 			want := resolveOrderWant
 			c.check(strings.Join(kinds, ",") == strings.Join(want, ","), "RESOLVE-ORDER", "util.ImportMap.Find", P.Pos(find.Pos()), resolveOrderText+" (predicate table, in this order)", fmt.Sprintf("qualifier resolution order is not %s (predicate table gives %v): with two imports of the same declared name, one of them aliased, the order of the import specs decides", resolveOrderText, kinds))
-			return
+			decided = true
 		}
+	}
+	// general form: a sequence of first-match searches (helpers taking a predicate, slices.IndexFunc, functions that
+	// are one search themselves), a search with a predicate drawn from a list standing for the whole list
+	if kinds, ok := c.resolveOrderSteps(find); ok && !decided {
+		want := resolveOrderWant
+		c.check(strings.Join(kinds, ",") == strings.Join(want, ","), "RESOLVE-ORDER", "util.ImportMap.Find", P.Pos(find.Pos()), resolveOrderText+" (a sequence of first-match searches, in this order)", fmt.Sprintf("qualifier resolution order is not %s (the searches are made in the order %v): with two imports of the same declared name, one of them aliased, the order of the import specs decides", resolveOrderText, kinds))
+		decided = true
 	}
 	// fused form: one pass that returns an alias match at once and keeps, per lower priority, the first match in a
 	// variable that is assigned only while it is still nil; after the pass the variables are returned in order
-	if kinds, ok := c.resolveOrderFused(find); ok {
+	if kinds, ok := c.resolveOrderFused(find); ok && !decided {
 		want := resolveOrderWant
 		c.check(strings.Join(kinds, ",") == strings.Join(want, ","), "RESOLVE-ORDER", "util.ImportMap.Find", P.Pos(find.Pos()), resolveOrderText+" (one pass, first match of each priority kept)", fmt.Sprintf("qualifier resolution order is not %s (single pass gives %v): with two imports of the same declared name, one of them aliased, the order of the import specs decides", resolveOrderText, kinds))
-		return
+		decided = true
 	}
-	// order by dominance of the loops: a return of kind k must be reachable only after the loops of earlier kinds finished
-	sort.Slice(rets, func(i, j int) bool { return rets[i].blk.Index < rets[j].blk.Index })
-	var kinds []string
-	for _, r := range rets {
-		kinds = append(kinds, r.kind)
-	}
-	// establish order through loop-exit dominance
-	orderOK := len(rets) == len(resolveOrderWant)
-	want := resolveOrderWant
-	pos := map[string]*ssa.BasicBlock{}
-	for _, r := range rets {
-		pos[r.kind] = r.blk
-	}
-	headerOf := func(b *ssa.BasicBlock) *ssa.BasicBlock {
-		for x := b; x != nil; x = x.Idom() {
-			if x.Comment == "rangeindex.loop" {
-				return x
+	if !decided {
+		// order by dominance of the loops: a return of kind k must be reachable only after the loops of earlier kinds finished
+		sort.Slice(rets, func(i, j int) bool { return rets[i].blk.Index < rets[j].blk.Index })
+		var kinds []string
+		for _, r := range rets {
+			kinds = append(kinds, r.kind)
+		}
+		// establish order through loop-exit dominance
+		orderOK := len(rets) == len(resolveOrderWant)
+		want := resolveOrderWant
+		pos := map[string]*ssa.BasicBlock{}
+		for _, r := range rets {
+			pos[r.kind] = r.blk
+		}
+		headerOf := func(b *ssa.BasicBlock) *ssa.BasicBlock {
+			for x := b; x != nil; x = x.Idom() {
+				if x.Comment == "rangeindex.loop" {
+					return x
+				}
+			}
+			return nil
+		}
+		for i := 0; orderOK && i+1 < len(want); i++ {
+			a, b := pos[want[i]], pos[want[i+1]]
+			if a == nil || b == nil {
+				orderOK = false
+				break
+			}
+			ha, hb := headerOf(a), headerOf(b)
+			if ha == nil || hb == nil || ha == hb || !dominates(ha, hb) {
+				orderOK = false
+				break
+			}
+			if la := loopOf(ha); la != nil && la[hb] {
+				orderOK = false // nested, not sequential
 			}
 		}
-		return nil
+		c.check(orderOK, "RESOLVE-ORDER", "util.ImportMap.Find", P.Pos(find.Pos()), resolveOrderText, fmt.Sprintf("qualifier resolution order is not %s (found %v): with two imports of the same declared name, one of them aliased, the order of the import specs decides (gofmt sorts them)", resolveOrderText, kinds))
 	}
-	for i := 0; orderOK && i+1 < len(want); i++ {
-		a, b := pos[want[i]], pos[want[i+1]]
-		if a == nil || b == nil {
-			orderOK = false
-			break
-		}
-		ha, hb := headerOf(a), headerOf(b)
-		if ha == nil || hb == nil || ha == hb || !dominates(ha, hb) {
-			orderOK = false
-			break
-		}
-		if la := loopOf(ha); la != nil && la[hb] {
-			orderOK = false // nested, not sequential
-		}
-	}
-	c.check(orderOK, "RESOLVE-ORDER", "util.ImportMap.Find", P.Pos(find.Pos()), resolveOrderText, fmt.Sprintf("qualifier resolution order is not %s (found %v): with two imports of the same declared name, one of them aliased, the order of the import specs decides (gofmt sorts them)", resolveOrderText, kinds))
 	// empty qualifier -> nil
 	emptyNil := false
 	allInstrs(find, func(b *ssa.BasicBlock, ins ssa.Instruction) {
@@ -772,6 +819,51 @@ func (c *Ctx) ruleMatcherShape() {
 					}
 				}
 			case *ssa.Call:
+				// slices.EqualFunc(have, want, same): equal lengths and same(have[i], want[i]) for every i (documented)
+				if cal := x.Call.StaticCallee(); cal != nil && strings.HasPrefix(FuncName(cal), "slices.EqualFunc") && len(x.Call.Args) == 3 {
+					a0, a1 := P.Desc(x.Call.Args[0]), P.Desc(x.Call.Args[1])
+					isIn := strings.Contains(a0, "TypeMethod.Inputs") && strings.Contains(a1, "InterfaceMethod.Inputs")
+					isOut := strings.Contains(a0, "TypeMethod.Outputs") && strings.Contains(a1, "InterfaceMethod.Outputs")
+					// the comparison: typesMatch on the two elements, in this order
+					okCmp := false
+					if pf := P.closureValue(x.Call.Args[2], 0); pf != nil && len(pf.Params) == 2 {
+						nRet, nGood := 0, 0
+						allInstrs(pf, func(_ *ssa.BasicBlock, pi ssa.Instruction) {
+							r, ok := pi.(*ssa.Return)
+							if !ok || len(r.Results) != 1 {
+								return
+							}
+							nRet++
+							if tc, ok := r.Results[0].(*ssa.Call); ok && tc.Call.StaticCallee() != nil && FuncName(tc.Call.StaticCallee()) == "implements.typesMatch" && len(tc.Call.Args) == 2 {
+								if P.cellOfParam(tc.Call.Args[0]) == pf.Params[0] && P.cellOfParam(tc.Call.Args[1]) == pf.Params[1] {
+									nGood++
+								}
+							}
+						})
+						okCmp = nRet == 1 && nGood == 1
+					}
+					// its answer is a conjunct of what signaturesMatch returns
+					inAnswer := false
+					allInstrs(sm, func(_ *ssa.BasicBlock, ri ssa.Instruction) {
+						if r, ok := ri.(*ssa.Return); ok && len(r.Results) == 1 {
+							for _, l := range literals(P.condFormula(r.Results[0], 0), true) {
+								if l.Kind == "cond" && l.Pos && l.Val == ssa.Value(x) {
+									inAnswer = true
+								}
+							}
+						}
+					})
+					if okCmp && inAnswer && x.Parent() == sm {
+						if isIn {
+							lenIn = true
+							nPair++
+						}
+						if isOut {
+							lenOut = true
+							nPair++
+						}
+					}
+				}
 				if x.Call.StaticCallee() != nil && FuncName(x.Call.StaticCallee()) == "implements.typesMatch" {
 					a0, a1 := P.Desc(x.Call.Args[0]), P.Desc(x.Call.Args[1])
 					same := (strings.Contains(a0, "TypeMethod.Inputs") && strings.Contains(a1, "InterfaceMethod.Inputs")) || (strings.Contains(a0, "TypeMethod.Outputs") && strings.Contains(a1, "InterfaceMethod.Outputs"))
@@ -1642,3 +1734,322 @@ func (c *Ctx) nameOwn(kind string, lits []Lit) string {
 var resolveOrderWant = []string{"alias", "name-own", "name", "path", "suffix"}
 
 const resolveOrderText = "explicit alias > declared name of an import without alias > declared name of any import > exact path > last path element"
+
+// ---- RESOLVE-ORDER, general form: a sequence of first-match searches ------------------------------------------
+//
+// A *search* is a value that is the first entry of the import list (in index order, over the whole list) accepted
+// by a predicate, or "none" (nil / -1):
+//
+//	h(..., pred)                with h a first-match helper (firstMatchHelper)
+//	&list[slices.IndexFunc(list, pred)]   returned under `index >= 0`
+//	g(name)                     with g a product function that is itself one search (its own returns are analysed)
+//
+// Find is a sequence of searches: each is returned when it found something, the next one is tried only after that
+// (its call is dominated by the previous one); the last may be returned as it is. A search whose predicate is the
+// element of a loop over a whole list of predicates stands for the listed predicates in list order.
+
+type importSearch struct {
+	kinds []string
+	at    ssa.Instruction // where the list is searched
+}
+
+// searchOf: the search v stands for (nil if v is not one). ctx: the pins under which v is described.
+func (c *Ctx) searchOf(find *ssa.Function, v ssa.Value, retBlk *ssa.BasicBlock, short0 string, depth int) *importSearch {
+	P := c.P
+	if depth > 4 {
+		return nil
+	}
+	switch x := v.(type) {
+	case *ssa.Call:
+		callee := x.Call.StaticCallee()
+		if callee == nil || !P.IsProductFunc(callee) || len(callee.Blocks) == 0 {
+			return nil
+		}
+		pi := -1
+		for i, a := range x.Call.Args {
+			if _, isF := a.Type().Underlying().(*types.Signature); isF {
+				if pi >= 0 {
+					return nil
+				}
+				pi = i
+			}
+		}
+		if pi >= 0 {
+			if !c.firstMatchHelper(callee, pi) {
+				return nil
+			}
+			kinds := c.predKinds(find, x.Call.Args[pi], x.Block(), retBlk, short0)
+			if kinds == nil {
+				return nil
+			}
+			return &importSearch{kinds, x}
+		}
+		// a product function that is one search itself, asked with the short name
+		named := false
+		for _, a := range x.Call.Args {
+			if P.Desc(a) == short0 {
+				named = true
+			}
+		}
+		if !named {
+			return nil
+		}
+		var inner *importSearch
+		okAll := true
+		P.Pinned(callee, x, func() {
+			allInstrs(callee, func(b *ssa.BasicBlock, ins ssa.Instruction) {
+				r, ok := ins.(*ssa.Return)
+				if !ok || len(r.Results) != 1 || isNilConst(r.Results[0]) {
+					return
+				}
+				s := c.searchOf(find, r.Results[0], b, short0, depth+1)
+				if s == nil || inner != nil {
+					okAll = false
+					return
+				}
+				inner = s
+			})
+		})
+		if !okAll || inner == nil {
+			return nil
+		}
+		return &importSearch{inner.kinds, x}
+	case *ssa.IndexAddr:
+		ic, ok := x.Index.(*ssa.Call)
+		if !ok || ic.Call.StaticCallee() == nil || !strings.HasPrefix(FuncName(ic.Call.StaticCallee()), "slices.IndexFunc") || len(ic.Call.Args) != 2 {
+			return nil
+		}
+		if !sameSliceValue(x.X, ic.Call.Args[0]) && P.Desc(x.X) != P.Desc(ic.Call.Args[0]) {
+			return nil
+		}
+		// returned only when something was found: index >= 0 on the way
+		found := false
+		for _, l := range P.BlockGuards(retBlk) {
+			if l.Kind == "lt" && l.X != nil && l.Y != nil {
+				// found >= 0  ==  !(found < 0)
+				if !l.Pos && l.X == ssa.Value(ic) {
+					if k, isC := constInt(l.Y); isC && k == 0 {
+						found = true
+					}
+				}
+				// -1 < found / 0 <= found forms
+				if l.Pos && l.Y == ssa.Value(ic) {
+					if k, isC := constInt(l.X); isC && k == -1 {
+						found = true
+					}
+				}
+			}
+			if l.Kind == "eq" && !l.Pos && (l.X == ssa.Value(ic) || l.Y == ssa.Value(ic)) {
+				for _, o := range []ssa.Value{l.X, l.Y} {
+					if k, isC := constInt(o); isC && k == -1 {
+						found = true
+					}
+				}
+			}
+		}
+		if !found {
+			return nil
+		}
+		kinds := c.predKinds(find, ic.Call.Args[1], ic.Block(), retBlk, short0)
+		if kinds == nil {
+			return nil
+		}
+		return &importSearch{kinds, ic}
+	}
+	return nil
+}
+
+// predKinds: the priorities a predicate value stands for: one for a function literal judged by its own conditions;
+// the listed ones, in order, for a literal that only hands its arguments to the element of a loop over a whole list
+// of predicates.
+func (c *Ctx) predKinds(find *ssa.Function, pred ssa.Value, searchBlk, retBlk *ssa.BasicBlock, short0 string) []string {
+	P := c.P
+	pf := P.closureValue(pred, 0)
+	if pf == nil || len(pf.Blocks) == 0 {
+		return nil
+	}
+	// func(imp) bool { return matches(imp, shortName) } with matches captured from a loop over the list of predicates
+	var dyn *ssa.Call
+	nRet := 0
+	allInstrs(pf, func(b *ssa.BasicBlock, ins ssa.Instruction) {
+		if r, ok := ins.(*ssa.Return); ok && len(r.Results) == 1 {
+			nRet++
+			if call, ok := r.Results[0].(*ssa.Call); ok && call.Call.StaticCallee() == nil && !call.Call.IsInvoke() {
+				dyn = call
+			}
+		}
+	})
+	if dyn != nil && nRet == 1 {
+		named := false
+		for _, a := range dyn.Call.Args {
+			if P.Desc(a) == short0 {
+				named = true
+			}
+		}
+		// the function value called: a variable of the enclosing function (captured, also as a per-round cell)
+		roots := P.Resolve(dyn.Call.Value)
+		if os.Getenv("GGV_RO_DEBUG") != "" {
+			fmt.Printf("RO predKinds dyn named=%v roots=%d %T\n", named, len(roots), roots[0])
+		}
+		if named && len(roots) == 1 && retBlk.Parent() == find && searchBlk.Parent() == find {
+			if kinds, ok := c.resolveOrderTableFrom(find, retBlk, roots[0], searchBlk, false, nil); ok {
+				return kinds
+			}
+		}
+		return nil
+	}
+	k := c.classifyImportPred(pf, short0)
+	if k == "?" {
+		return nil
+	}
+	return []string{k}
+}
+
+// resolveOrderSteps: Find as a sequence of searches (see above); the kinds in the order they are tried.
+func (c *Ctx) resolveOrderSteps(find *ssa.Function) ([]string, bool) {
+	P := c.P
+	short0 := P.Desc(find.Params[1])
+	type step struct {
+		s   *importSearch
+		ret *ssa.Return
+	}
+	var steps []step
+	okAll := true
+	allInstrs(find, func(b *ssa.BasicBlock, ins ssa.Instruction) {
+		r, ok := ins.(*ssa.Return)
+		if !ok || len(r.Results) != 1 || isNilConst(r.Results[0]) {
+			return
+		}
+		s := c.searchOf(find, r.Results[0], b, short0, 0)
+		if s == nil {
+			okAll = false
+			return
+		}
+		steps = append(steps, step{s, r})
+	})
+	if !okAll || len(steps) == 0 {
+		return nil, false
+	}
+	// order: the searches are made one after the other; every one but the last is returned only when it found
+	// something
+	sort.SliceStable(steps, func(i, j int) bool {
+		a, b := steps[i].s.at, steps[j].s.at
+		if a.Block() == b.Block() {
+			return instrIdx(a) < instrIdx(b)
+		}
+		return dominates(a.Block(), b.Block())
+	})
+	var kinds []string
+	for i, st := range steps {
+		if i+1 < len(steps) {
+			nx := steps[i+1].s.at
+			if !(st.s.at.Block() == nx.Block() && instrIdx(st.s.at) < instrIdx(nx)) && !dominates(st.s.at.Block(), nx.Block()) {
+				return nil, false
+			}
+			// returned under "found"
+			atv, _ := st.s.at.(ssa.Value)
+			guarded := false
+			for _, l := range P.BlockGuards(st.ret.Block()) {
+				if v := nilCheckedValue(l); v != nil && !l.Pos && atv != nil && v == atv {
+					guarded = true
+				}
+				if l.Kind == "lt" || l.Kind == "eq" {
+					if l.X == atv || l.Y == atv {
+						guarded = true // index form: judged in searchOf
+					}
+				}
+			}
+			if !guarded {
+				return nil, false
+			}
+		}
+		kinds = append(kinds, st.s.kinds...)
+	}
+	return kinds, true
+}
+
+// constFolded: literals with the parts that are constants in the current calling context folded away:
+// -and(true, B) is -B; -and(false, B) says nothing; +and(..) parts are listed on their own.
+func (c *Ctx) constFolded(lits []Lit) []Lit {
+	P := c.P
+	isConstBool := func(l Lit) (val, ok bool) {
+		if l.Kind != "cond" || l.Val == nil {
+			return false, false
+		}
+		allC := true
+		l.In(P, func() {
+			for _, r := range P.Resolve(l.Val) {
+				b, isC := constBool(r)
+				if !isC || (ok && b != val) {
+					allC = false
+					return
+				}
+				val, ok = b, true
+			}
+		})
+		if !allC || !ok {
+			return false, false
+		}
+		if !l.Pos {
+			val = !val
+		}
+		return val, true
+	}
+	var out []Lit
+	for _, l := range lits {
+		if (l.Kind == "and" && !l.Pos) || (l.Kind == "or" && l.Pos) {
+			// a disjunction of the (negated) parts: drop parts that are constantly false, the whole literal if a
+			// part is constantly true; a single remaining part stands on its own
+			var rest []Lit
+			dropAll := false
+			for _, sl := range l.Subs {
+				if l.Kind == "and" {
+					sl.Pos = !sl.Pos
+				}
+				if sl.Ctx == nil {
+					sl.Ctx = l.Ctx
+				}
+				if v, ok := isConstBool(sl); ok {
+					if v {
+						dropAll = true
+					}
+					continue
+				}
+				rest = append(rest, sl)
+			}
+			if dropAll {
+				continue
+			}
+			if len(rest) == 1 {
+				out = append(out, rest[0])
+				continue
+			}
+		}
+		out = append(out, l)
+	}
+	return out
+}
+
+// cellOfParam: v is the address of the local copy of a parameter (&p for a parameter p whose address is taken) or
+// the parameter itself: returns that parameter.
+func (P *Program) cellOfParam(v ssa.Value) *ssa.Parameter {
+	if prm, ok := v.(*ssa.Parameter); ok {
+		return prm
+	}
+	al, ok := v.(*ssa.Alloc)
+	if !ok || al.Referrers() == nil {
+		return nil
+	}
+	var prm *ssa.Parameter
+	n := 0
+	for _, r := range *al.Referrers() {
+		if st, ok := r.(*ssa.Store); ok && st.Addr == ssa.Value(al) {
+			n++
+			prm, _ = st.Val.(*ssa.Parameter)
+		}
+	}
+	if n != 1 {
+		return nil
+	}
+	return prm
+}
